@@ -27,6 +27,7 @@ type C19Case struct {
 	Flags    []string `json:"flags"`
 	Rich     bool     `json:"rich"`   // prose before a block has multi-byte runes or tabs
 	Inline   bool     `json:"inline"` // some prose shares a line with a fence
+	CRLF     bool     `json:"crlf"`   // CR LF line ends
 }
 
 var proseWords = []string{"Grammar", "for", "the", "calculator:", "`tok`", "``x``", "é世界", "naïve", "\t", "tab\tbed", "1.", "#", "##", "* item", "> quote", "'a'", "\"s\"", "A : b ;", "<< x >>", "/* c */", "// c", "$", "|", "\r", "—", "𝔘", "~~~", "`"}
@@ -180,6 +181,13 @@ func genC19(t *rapid.T) C19Case {
 	p, _ = genProse(t)
 	emit(p, false)
 	c.MD, c.Code, c.Blocks = md.String(), code.String(), block
+	if rapid.IntRange(0, 4).Draw(t, "crlf") == 0 {
+		// the whole file with CR LF line ends: lines and columns are unchanged
+		// (the CR is the last character of its line)
+		c.MD = strings.ReplaceAll(c.MD, "\n", "\r\n")
+		c.Code = strings.ReplaceAll(c.Code, "\n", "\r\n")
+		c.CRLF = true
+	}
 	return c
 }
 
@@ -267,6 +275,9 @@ func checkC19(cx *Ctx, c C19Case) *Failure {
 	}
 	if c.Inline {
 		cx.Ev.Class("prose_on_a_fence_line")
+	}
+	if c.CRLF {
+		cx.Ev.Class("crlf_line_ends")
 	}
 	if c.Blocks >= 2 && c.Rich && (c.ErrLine == 0 || c.ErrBlock > 1) {
 		cx.Ev.NonTrivial(ev.Hash(c.MD), func() any {
